@@ -306,6 +306,22 @@ CLAIMED = {
         technique="TLA+ exact-arithmetic law spec model-checked by TLC + TLC trace validation of records taken from the real force elements",
         ref="5/C07",
     ),
+    "C17": dict(
+        level="exploration",
+        text="Scheme.tla holds the table of residual blocks every integrator enforces at which point of a step (RATTLE: g and g_dot at the stored "
+             "state; backward Euler and dual Stoermer-Verlet: g; Moreau: g_dot at the midpoint configuration; stabilised DAE wrapper: g, g_dot, no "
+             "drift; ODE wrapper: equations of motion and g_ddot with the reported accelerations/multipliers; unit quaternions for the solvers that "
+             "normalise) and the verdict for a recorded step. Seeded random open and closed chains (revolute, spherical, cylindrical, prismatic, "
+             "rigid joints, fixed-distance closures, point-mass pendulums, force laws in force and compliance form) are simulated with all six "
+             "solvers at step sizes over two decades, plus fast planar chains with coarse steps and default tolerances where Newton fails after "
+             "some steps; for every stored step the harness evaluates the blocks with System methods, classifies them and TLC evaluates the table.",
+        note="Exploration by trace validation: the decisive comparison is a float threshold in the harness (solver tolerances 1e-10: g <= 1e-7, "
+             "g_dot <= 1e-7 x velocity scale, |P|^2-1 <= 1e-12, DAE wrapper 1e-6, ODE wrapper 1e-8/1e-7 x force scale; 'violated' only above 100x the "
+             "threshold, in between not judged). TLC contributes the scheme table and total coverage of the stored steps. Runs that end loudly are not "
+             "judged here (C21). Two synthetic records check that the table bites.",
+        technique="TLA+ scheme table + TLC trace validation of the stored steps of real solver runs",
+        ref="5/C17",
+    ),
 }
 
 NOT_APPLICABLE = {
